@@ -148,6 +148,37 @@ def generate():
                                    and len(c.args) >= 2 and isinstance(c.args[1], ast.Constant)
                                    and "w" in str(c.args[1].value) for b in n.body for c in ast.walk(b))
                     directs.append({"file": rel, "line": n.lineno, "test": ast.unparse(n.test), "guardsWrite": has_open})
+    # assignments to an attribute that a confirm_overwrite expression reads (e.g. `args.no_warnings = True`)
+    flag_attrs = set()
+    for st in sites:
+        try:
+            for n in ast.walk(ast.parse(st["confirm"], mode="eval")):
+                if isinstance(n, ast.Attribute):
+                    flag_attrs.add(n.attr)
+        except SyntaxError:
+            pass
+    flag_attrs.add("no_warnings")
+    assigns = []
+    for rel, tree in trees.items():
+        for n in ast.walk(tree):
+            targets = []
+            if isinstance(n, ast.Assign):
+                targets = n.targets
+            elif isinstance(n, (ast.AugAssign, ast.AnnAssign)):
+                targets = [n.target]
+            elif isinstance(n, (ast.NamedExpr,)):
+                targets = [n.target]
+            elif isinstance(n, ast.Delete):
+                targets = n.targets
+            for t in targets:
+                for x in ast.walk(t):
+                    if isinstance(x, ast.Attribute) and x.attr in flag_attrs:
+                        assigns.append({"file": rel, "line": n.lineno, "target": ast.unparse(x)})
+                    if isinstance(x, ast.Subscript) and isinstance(x.slice, ast.Constant) and x.slice.value in flag_attrs:
+                        assigns.append({"file": rel, "line": n.lineno, "target": ast.unparse(x)})
+            if isinstance(n, ast.Call) and getattr(n.func, "id", None) in ("setattr", "delattr") and len(n.args) >= 2 \
+                    and isinstance(n.args[1], ast.Constant) and n.args[1].value in flag_attrs:
+                assigns.append({"file": rel, "line": n.lineno, "target": ast.unparse(n)})
     # shape of user.confirm
     shape = {"op": "?", "then": False, "else": False}
     for n in ast.walk(trees["evo/tools/user.py"]):
@@ -183,13 +214,18 @@ def generate():
     for i, r in enumerate(raws):
         L.append(f"  {{ file := {lean_str(r['file'])}, line := {r['line']}, guarded := {b(r['guarded'])} }}"
                  + ("," if i + 1 < len(raws) else ""))
-    L += ["]", "", f"def confirmShape : ConfirmShape := {{ op := {lean_str(shape['op'])}, thenRet := {b(shape['then'])}, "
+    L += ["]", "", "/-- assignments anywhere in evo/ to an attribute read by a confirm_overwrite expression: (file, line, target) -/",
+          "def flagAssignments : List (String × Nat × String) := ["]
+    for i, a in enumerate(assigns):
+        L.append(f"  ({lean_str(a['file'])}, {a['line']}, {lean_str(a['target'])})" + ("," if i + 1 < len(assigns) else ""))
+    L += ["]", "", "def flagAttributes : List String := [" + ", ".join(lean_str(x) for x in sorted(flag_attrs)) + "]"]
+    L += ["", f"def confirmShape : ConfirmShape := {{ op := {lean_str(shape['op'])}, thenRet := {b(shape['then'])}, "
                    f"elseRet := {b(shape['else'])} }}",
           f"def confirmKey : String := {lean_str(str(shape.get('key', '?')))}", "", "end Evo.Gen"]
     changed = write_if_changed(core.LEAN / "EvoModel" / "Gen" / "Writers.lean", "\n".join(L) + "\n")
     return {"Gen/Writers.lean": {"writers": [w["qual"] for w in writers], "call_sites": len(sites),
                                  "cli_sites": sum(1 for s in sites if s["cli"]), "direct_guards": len(directs),
-                                 "raw_writes": len(raws), "changed": changed}}
+                                 "raw_writes": len(raws), "flag_assignments": assigns, "changed": changed}}
 
 
 if __name__ == "__main__":
